@@ -114,6 +114,9 @@ func (x *Exec) pushFrame(st *State, fn *ssa.Function, args []Value, bind []Value
 		if i < len(args) {
 			fr.regs[p] = args[i]
 			fr.params[p.Name()] = args[i]
+			if c != nil && i < len(c.Aliases) && c.Aliases[i] != "" {
+				fr.params[c.Aliases[i]] = args[i]
+			}
 		}
 	}
 	st.frames = append(st.frames, fr)
